@@ -183,6 +183,62 @@ func specTopic(t string) string {
 // fragConn cuts every write of a client into segments (-frag 1: after the first byte, 2: in the middle, 3: before the
 // last byte, 4: byte by byte for packets up to 64 bytes): what the broker makes of a packet may not depend on how the
 // transport delivers its bytes.
+// pipeMode: a CONNECT and the packet the same connection sends next reach the broker in one write (a client that does not
+// wait for the CONNACK); the outputs of the two steps are compared together
+var pipeMode bool
+
+// skipConn swallows the next `skip` writes (the bytes went out earlier, together with the CONNECT)
+type skipConn struct {
+	net.Conn
+	skip int32
+}
+
+func (s *skipConn) Write(p []byte) (int, error) {
+	if atomic.LoadInt32(&s.skip) > 0 {
+		atomic.AddInt32(&s.skip, -1)
+		return len(p), nil
+	}
+	return s.Conn.Write(p)
+}
+
+// packetFor: the single packet a step makes its connection send (nil: the step is something else)
+func packetFor(a bAct) []byte {
+	switch a.A {
+	case "subscribe":
+		body := []byte{byte(a.ID >> 8), byte(a.ID)}
+		for _, rq := range a.Req {
+			body = append(append(body, lp([]byte(wireTopic(rq.F)))...), byte(rq.Q))
+		}
+		return pkt(0x82, body)
+	case "unsubscribe":
+		body := []byte{byte(a.ID >> 8), byte(a.ID)}
+		for _, f := range a.Fs {
+			body = append(body, lp([]byte(wireTopic(f)))...)
+		}
+		return pkt(0xa2, body)
+	case "publish":
+		first := byte(0x30) | byte(a.Q)<<1
+		if a.R {
+			first |= 1
+		}
+		if a.Dup {
+			first |= 8
+		}
+		body := lp([]byte(wireTopic(a.T)))
+		if a.Q > 0 {
+			body = append(body, byte(a.ID>>8), byte(a.ID))
+		}
+		return pkt(first, append(body, brokerPayload(a.Pl)...))
+	case "pubrel":
+		return []byte{0x62, 2, byte(a.ID >> 8), byte(a.ID)}
+	case "end":
+		if a.How == "disconnect" {
+			return []byte{0xe0, 0}
+		}
+	}
+	return nil
+}
+
 type fragConn struct {
 	net.Conn
 	mode int
@@ -559,6 +615,12 @@ func refusedFirstPacket(kind string) []byte {
 		return ok("MQTT", 4, 2, strings.Repeat("a", 33))
 	case "idbad":
 		return ok("MQTT", 4, 2, "bad\x01id")
+	case "iddel": // the bytes next to the range of printable characters, 0x20..0x7e
+		return ok("MQTT", 4, 2, "del\x7fid")
+	case "idhigh":
+		return ok("MQTT", 4, 2, "hi\x80id")
+	case "idctl1f":
+		return ok("MQTT", 4, 2, "\x1f")
 	case "idempty0":
 		return ok("MQTT", 4, 0, "")
 	case "auth":
@@ -773,6 +835,9 @@ func runBehaviour(steps []bStep, auth string, maxqos int, res *Result) (result *
 	}()
 	// order-only mode (C17): the publish steps per payload, the number of receipts per connection and payload, and the
 	// publish step of the last message a connection received
+	var pendingSkip *skipConn
+	var carryGot map[string][]bPkt
+	var carryExp map[string][][]bPkt
 	pubSteps := map[string][]int{}
 	nrecv := map[string]map[string]int{}
 	lastStep := map[string]int{}
@@ -780,6 +845,11 @@ func runBehaviour(steps []bStep, auth string, maxqos int, res *Result) (result *
 		a := st.A
 		got := map[string][]bPkt{}
 		skipBarrier := map[string]bool{}
+		pipedStep := false // this step's CONNECT went out together with the next step's packet
+		if pendingSkip != nil {
+			atomic.StoreInt32(&pendingSkip.skip, 1) // this step's packet is out already: its write is swallowed
+			pendingSkip = nil
+		}
 		where := fmt.Sprintf("step %d %s", i, a.A)
 		if a.A == "publish" && !a.Dup {
 			pubSteps[a.T+" "+a.Pl] = append(pubSteps[a.T+" "+a.Pl], i)
@@ -801,6 +871,18 @@ func runBehaviour(steps []bStep, auth string, maxqos int, res *Result) (result *
 			first := connectBytes(a)
 			if a.A == "refuse" {
 				first = refusedFirstPacket(a.Kind)
+			}
+			if pipeMode && a.A == "connect" && !strings.Contains(a.Form, "cut") && i+1 < len(steps) && steps[i+1].A.C == a.C {
+				if b := packetFor(steps[i+1].A); b != nil && len(b) < 4000 {
+					first = append(append([]byte(nil), first...), b...)
+					sc := &skipConn{Conn: cl}
+					cl = sc
+					pipedStep = true
+					pendingSkip = sc
+					if steps[i+1].A.A == "end" {
+						skipBarrier[a.C] = true
+					}
+				}
 			}
 			m := &bConn{c: cl, srv: srv}
 			r.conns[a.C] = m
@@ -1111,6 +1193,25 @@ func runBehaviour(steps []bStep, auth string, maxqos int, res *Result) (result *
 			}
 			continue
 		}
+		if pipedStep {
+			// compared together with the next step
+			carryGot, carryExp = got, st.Out
+			continue
+		}
+		if carryExp != nil {
+			merged := map[string][][]bPkt{}
+			for name, e := range carryExp {
+				merged[name] = append(merged[name], e...)
+			}
+			for name, e := range st.Out {
+				merged[name] = append(merged[name], e...)
+			}
+			st.Out = merged
+			for name, g := range carryGot {
+				got[name] = append(append([]bPkt(nil), g...), got[name]...)
+			}
+			carryGot, carryExp = nil, nil
+		}
 		// projection of the session store
 		if n := r.sp.Count(); n != st.Nsess {
 			// what is stored after a step is the session property's observable (after a refused CONNECT: C11's)
@@ -1255,6 +1356,7 @@ func cmdBrokerReplay(a Args) {
 	maxqos := a.num("maxqos", 2)
 	fragMode = a.num("frag", 0)
 	brokerOrderOnly = a.str("orderonly", "") != ""
+	pipeMode = a.str("pipe", "") != ""
 	if o := a.str("own", ""); o != "" {
 		brokerOwn = map[string]bool{}
 		for _, t := range strings.Split(o, ",") {
